@@ -242,6 +242,28 @@ func checkExprs(c *core.Ctx, exprs []string, withReflect bool) {
 		jobs = append(jobs, job{ti, "go/types", "X", r})
 		c.Trans(len(exprs))
 	}
+	// a second generated file for the same target in the same process (fresh tracker and namer, after
+	// the other targets were rendered): same texts, same registered imports
+	for ti := range targets {
+		again := renderAll(targets[ti].pkg, ti == 2, len(exprs), func(i int) snippet.Snippet { return snippet.ID(orig[i]) })
+		c.Trans(len(exprs))
+		first := jobs[ti].r
+		for i, e := range exprs {
+			if again.texts[i] != first.texts[i] || again.panics[i] != first.panics[i] {
+				c.Fail("", Case{Expr: e, Target: targets[ti].name, From: "go/types"}, "type %q rendered as %q in the first file for this target but as %q (panic %q) in a second file of the same process", e, first.texts[i], again.texts[i], again.panics[i])
+			}
+		}
+		if fmt.Sprint(again.imports) != fmt.Sprint(first.imports) {
+			witness := exprs[0]
+			for i, e := range exprs {
+				if strings.Contains(e, "[dep.") || strings.Contains(e, "otherdep.T]") {
+					witness = exprs[i]
+					break
+				}
+			}
+			c.Fail("", Case{Expr: witness, Target: targets[ti].name, From: "go/types"}, "a second file of the same process for target %s registered the imports %v, the first one %v, for the same types", targets[ti].name, again.imports, first.imports)
+		}
+	}
 	if withReflect {
 		for ti := range targets {
 			r, err := renderReflect(dir, exprs, ti)
@@ -251,6 +273,27 @@ func checkExprs(c *core.Ctx, exprs []string, withReflect bool) {
 			}
 			jobs = append(jobs, job{ti, "reflect", "R", *r})
 			c.Trans(len(exprs))
+		}
+	}
+	// every expression once more in a file of its own (fresh tracker and namer per expression, after
+	// everything above ran in this process): the tracker must hold exactly the foreign packages the
+	// expression mentions - an oracle that does not depend on what was rendered before
+	for ti := range targets {
+		for i, e := range exprs {
+			one := renderAll(targets[ti].pkg, false, 1, func(int) snippet.Snippet { return snippet.ID(orig[i]) })
+			c.Trans(1)
+			if one.panics[0] != "" {
+				continue // reported by the main pass
+			}
+			want := expectedPaths(e, targets[ti].pkg)
+			var got []string
+			for p := range one.imports {
+				got = append(got, p)
+			}
+			sort.Strings(got)
+			if fmt.Sprint(got) != fmt.Sprint(want) {
+				c.Fail("", Case{Expr: e, Target: targets[ti].name, From: "go/types"}, "type %q rendered alone into a fresh file (target: %s) as %q registered the imports %v, it mentions exactly %v", e, targets[ti].name, one.texts[0], got, want)
+			}
 		}
 	}
 	for _, j := range jobs {
@@ -305,6 +348,38 @@ func checkExprs(c *core.Ctx, exprs []string, withReflect bool) {
 			c.Count("target_packages_with_type_errors", 1)
 		}
 	}
+}
+
+// expectedPaths: the foreign packages an expression (written relative to package src) mentions
+func expectedPaths(e, target string) []string {
+	set := map[string]bool{}
+	// qualifiers as written in package src
+	for q, p := range map[string]string{"otherdep.": modPath + "/other/dep", "dep.": modPath + "/dep"} {
+		rest := e
+		if q == "dep." {
+			rest = strings.ReplaceAll(e, "otherdep.", "")
+		}
+		if strings.Contains(rest, q) {
+			set[p] = true
+		}
+	}
+	// local types of src: L, LG[...]
+	if target != modPath+"/src" {
+		stripped := strings.NewReplacer("otherdep.", "", "dep.", "").Replace(e)
+		for _, tok := range strings.FieldsFunc(stripped, func(r rune) bool {
+			return !(r == '_' || r >= 'A' && r <= 'Z' || r >= 'a' && r <= 'z' || r >= '0' && r <= '9')
+		}) {
+			if tok == "L" || tok == "LG" {
+				set[modPath+"/src"] = true
+			}
+		}
+	}
+	var out []string
+	for p := range set {
+		out = append(out, p)
+	}
+	sort.Strings(out)
+	return out
 }
 
 func classify(expr, text string) string {
@@ -399,7 +474,7 @@ func replay(c *core.Ctx, raw json.RawMessage) {
 func init() {
 	core.Register(&core.Prop{
 		ID: "C11", Level: "model_checking", Run: run, Replay: replay, Shards: 8,
-		Rule: "every type expression of the grammar: depth 0 = all predeclared types, error, any, local named, foreign named, foreign with a clashing last path segment, generic instantiations with basic/named/nested arguments; depth 1 = every constructor (*, [], [3], chan, map with 6 key types, struct with tagged fields, struct with embedded value and pointer) over all atoms; depth 2 over a reduced atom set (thorough: full depth 2 and depth 3 over a further reduced base); each rendered from its go/types type AND from its reflect type (compiled helper program) into 3 targets (own package, another package, another package whose tracker already holds a clashing name); the texts are written as var declarations with the tracker's imports, the module is type-checked again and types.Identical(original, rendered) is required. Non-trivial = composite expressions; states = (source, target, nesting)",
+		Rule: "every type expression of the grammar: depth 0 = all predeclared types, error, any, local named, foreign named, foreign with a clashing last path segment, generic instantiations with basic/named/nested arguments; depth 1 = every constructor (*, [], [3], chan, map with 6 key types, struct with tagged fields, struct with embedded value and pointer) over all atoms; depth 2 over a reduced atom set (thorough: full depth 2 and depth 3 over a further reduced base); each rendered from its go/types type AND from its reflect type (compiled helper program) into 3 targets (own package, another package, another package whose tracker already holds a clashing name); the texts are written as var declarations with the tracker's imports, the module is type-checked again and types.Identical(original, rendered) is required; every target is rendered a second time in the same process with a fresh tracker and namer and must give the same texts and imports. Non-trivial = composite expressions; states = (source, target, nesting)",
 		Assumptions: []string{
 			"outside the grammar: generic arguments that are pointers/maps/slices, receive/send-only channels, non-empty interface literals, func types",
 		},
